@@ -863,6 +863,43 @@ def f(x: FLOAT[...], y: FLOAT[...], n: INT64):
 ''', ["x:F:2 y:F:2 n:I:"])
 
 # ---------------------------------------------------------------- sub-function calls
+# ---------------------------------------------------------------- subscripts that need temporaries, repeated on one variable
+P("subscript_mixed_twice", '''
+@script()
+def f(X: FLOAT[...], i: INT64):
+    a = X[0:2, i]
+    b = X[1:3, i]
+    return a + b
+''', ["X:F:3,3 i:I:"])
+
+P("subscript_two_constants_twice", '''
+@script()
+def f(X: FLOAT[...]):
+    a = X[0, 1]
+    b = X[1, 2]
+    return a + b
+''', ["X:F:3,3", "X:F:2,3,2"])
+
+P("subscript_temp_name_taken_by_user", '''
+@script()
+def f(X: FLOAT[...], i: INT64):
+    X_sliced = X * 2.0
+    X_squeezed = X + 1.0
+    a = X[0:2, i]
+    b = X[0, 1]
+    return a + X_sliced[0:2, i] + X_squeezed[0, 1] + b
+''', ["X:F:3,3 i:I:"])
+
+P("subscript_mixed_in_both_branches", '''
+@script()
+def f(X: FLOAT[...], i: INT64, c: BOOL):
+    if c:
+        r = X[0:1, i]
+    else:
+        r = X[1:2, i]
+    return r + X[0:1, i]
+''', ["X:F:3,3 i:I: c:B:"])
+
 # ---------------------------------------------------------------- liveness: uses that are not plain operands
 P("loop_bound_assigned_in_branches", '''
 @script()
